@@ -19,7 +19,7 @@ TIME = {'quick': 110, 'thorough': 1500}
 
 @st.composite
 def cases(draw, tier='quick'):
-    case = draw(inf.est_cases(min_m=0, max_m=5, zeros=True, iters=(1, 2, 3, 10, 50, 300), tiny_noise=True, max_attrs=4 if tier == 'quick' else 5, cap=256 if tier == 'quick' else 1024,
+    case = draw(inf.est_cases(min_m=0, max_m=5, zeros=True, iters=(1, 2, 3, 10, 50, 300), tiny_noise=True, tiny_units=True, max_attrs=4 if tier == 'quick' else 5, cap=256 if tier == 'quick' else 1024,
                               kinds=inf.Q_KINDS + ['zero']))
     case['special'] = draw(st.sampled_from(['none', 'none', 'none', 'fit_exact', 'all_zero_q']))
     case['order_seed'] = draw(st.integers(0, 2**31 - 1))
